@@ -129,6 +129,9 @@ func (Prop) RunBatch(c *vp.Child) {
 		if !c.Mine(i) {
 			continue
 		}
+		if c.Stage == "noquotas" && strings.Contains(t.src, "runtime.") {
+			continue
+		}
 		for _, n := range []int{1, 7, 64, 1000} {
 			text := strings.ReplaceAll(t.src, "$N", fmt.Sprint(n*t.scale))
 			id := fmt.Sprintf("tpl/%s/%d", t.name, n)
@@ -274,6 +277,21 @@ local x = setmetatable({v = 1}, mt)
 for i = 1, math.min($N, 100) do x = x + x end
 emit(x.v, x.foo)
 emit(pcall(function() return x + 1 end))`},
+	{"finalisers-at-context-exit", 1, `
+-- (uses the runtime library: not run by the noquotas build)
+local ctx = runtime.callcontext({kill = {cpu = 10000000}}, function()
+  local t = setmetatable({}, {__gc = function(o) emit("gc", "t first") end})
+  setmetatable(t, {__gc = function(o) emit("gc", "t second") end})
+  local u = setmetatable({}, {__gc = function(o) emit("gc", "u old field") end})
+  getmetatable(u).__gc = function(o) emit("gc", "u new field") end
+  local w = setmetatable({}, {__gc = function(o) emit("gc", "w") end})
+  setmetatable(w, {})
+  local ud = setmetatable({}, {__gc = function(o) emit("gc", "resurrect"); keep = o end})
+  for i = 1, math.min($N, 40) do setmetatable({}, {__gc = function() emit("gc", i) end}) end
+  emit("body end")
+end)
+emit("after", ctx.status, keep ~= nil)
+`},
 	{"varargs-and-returns", 1, `
 local function va(...) return select('#', ...), ... end
 local function many(n) local t = {} for i = 1, n do t[i] = i end return table.unpack(t) end
